@@ -7,7 +7,9 @@ import (
 	"strconv"
 	"strings"
 
+	"github.com/caddyserver/caddy/v2"
 	"github.com/caddyserver/caddy/v2/modules/caddyhttp"
+	_ "github.com/caddyserver/caddy/v2/modules/caddyhttp/headers"
 
 	"verif/harness/internal/core"
 )
@@ -470,6 +472,13 @@ func (p *prop) judge(k *kase, sel string, rcd *rec, res *scriptResult, o *core.O
 		p.judgeStacked(k, expected, fail)
 	}
 
+	// ---- 7c. the real `header` handler with DEFERRED response edits in front of encode (Caddyfile order:
+	// header before encode): its edits run in its own WriteHeader, after encode has decided — they must
+	// arrive, and everything encode is responsible for must be what it is without that handler
+	if wb && !noBodyStatus && k.recMode == 0 && rcd.sent && len(k.ops)%3 == 0 {
+		p.judgeBehindHeaders(k, rcd, expected, fail)
+	}
+
 	// ---- 8. end to end through a real net/http server and client
 	p.judgeServer(k, sel, wb, bypass, o)
 }
@@ -536,5 +545,83 @@ func (p *prop) judgeStacked(k *kase, expected []byte, fail func(class, format st
 		} else {
 			fail("decoded-body-differs", "[two encode handlers stacked] %s decodes to %d bytes, %d written", ces[0], len(dec), len(expected))
 		}
+	}
+}
+
+var deferredHeaders caddyhttp.MiddlewareHandler
+
+// judgeBehindHeaders: headers(deferred: set X-Deferred, add X-Deferred-Add, delete X-Other) → encode → script.
+func (p *prop) judgeBehindHeaders(k *kase, plainRun *rec, expected []byte, fail func(class, format string, a ...any)) {
+	if deferredHeaders == nil {
+		raw := []byte(`{"response":{"deferred":true,"set":{"X-Deferred":["d1"]},"add":{"X-Deferred-Add":["a1"]},"delete":["X-Other"]}}`)
+		mod, err := caddyCtx.LoadModuleByID("http.handlers.headers", raw)
+		if err != nil {
+			return
+		}
+		deferredHeaders = mod.(caddyhttp.MiddlewareHandler)
+	}
+	enc, err := buildHandler(k.enc, k.prefer, k.min, k.m, k.mkey, true)
+	if err != nil {
+		return
+	}
+	r := newRec()
+	var w http.ResponseWriter = r
+	if k.rf {
+		w = recRF{r}
+	}
+	res := &scriptResult{}
+	script := caddyhttp.HandlerFunc(func(w http.ResponseWriter, _ *http.Request) error {
+		replay(k.ops, w, res)
+		return nil
+	})
+	inner := caddyhttp.HandlerFunc(func(w http.ResponseWriter, req *http.Request) error {
+		return enc.ServeHTTP(w, req, script)
+	})
+	req := caddyhttp.PrepareRequest(k.request(), caddy.NewReplacer(), w, nil)
+	if err := deferredHeaders.ServeHTTP(w, req, inner); err != nil || !r.sent {
+		return
+	}
+	got, base := r.sentHdr, plainRun.sentHdr
+	if r.status != plainRun.status {
+		fail("status-changed", "[header (deferred) in front of encode] status %d, without that handler %d", r.status, plainRun.status)
+	}
+	// the headers wrapper applies its deferred edits in ITS WriteHeader / Write; a Flush or ReadFrom that
+	// commits the response first goes past it (promoted Unwrap / ReadFrom of the embedded wrapper) — with or
+	// without encode; that is the `header` directive's own behaviour, not a clause of this property: the
+	// edits are only expected when the handler announces its status before the body
+	explicit := false
+	for _, op := range k.ops {
+		if op.kind == 'h' && !informational(op.status) {
+			explicit = true
+			break
+		}
+		if op.kind == 'w' || op.kind == 'r' || op.kind == 'f' {
+			break
+		}
+	}
+	if !explicit {
+		goto encodeClauses
+	}
+	if v := got.Values("X-Deferred"); len(v) != 1 || v[0] != "d1" {
+		fail("deferred-header-edit-lost", "[header (deferred) in front of encode] X-Deferred = %q in the response the client received", v)
+	}
+	if got.Get("X-Other") != "" {
+		fail("deferred-header-edit-lost", "[header (deferred) in front of encode] X-Other was to be deleted, client sees %q", got.Values("X-Other"))
+	}
+encodeClauses:
+	for _, f := range []string{"Content-Encoding", "Content-Length", "Vary", "Etag", "Accept-Ranges", "Content-Type", "Cache-Control"} {
+		if strings.Join(got.Values(f), "\x00") != strings.Join(base.Values(f), "\x00") {
+			fail("unrelated-header-changed", "[header (deferred) in front of encode] %s: %q, without that handler %q", f, got.Values(f), base.Values(f))
+		}
+	}
+	// behind the headers wrapper the observing encoders do not see the recorder: everything is in `plain`
+	wire := append(append([]byte{}, r.plain.Bytes()...), r.encOut.Bytes()...)
+	ce := got.Get("Content-Encoding")
+	if plainRun.encOut.Len() > 0 || plainRun.encUsed != "" {
+		if dec, err := decodeBody(ce, wire); err != nil || !bytes.Equal(dec, expected) {
+			fail("decoded-body-differs", "[header (deferred) in front of encode] the %s body does not decode to what the handler wrote (%v)", ce, err)
+		}
+	} else if !bytes.Equal(wire, expected) {
+		fail("plain-body-differs", "[header (deferred) in front of encode] %d bytes received, %d written", len(wire), len(expected))
 	}
 }
